@@ -6,6 +6,7 @@ import (
 	"fmt"
 	"go/token"
 	"go/types"
+	"sort"
 	"strings"
 
 	"golang.org/x/tools/go/ssa"
@@ -68,11 +69,12 @@ func (v *Verifier) dispatchCall(st *State, call *ssa.CallCommon, fnv Value, args
 			}
 		}
 	}
-	// dynamic call of an unknown function value
+	// dynamic call of an unknown function value: type-level contract for function values received
+	// from the environment (listed assumption): it modifies only what its arguments reach
 	if len(fnv.L) == 1 {
 		v.checkNonNil(st, fnv.L[0], "call "+describe(call.Value), ins.Pos())
 	}
-	v.callUnknown(st, call.Signature(), args, true, "dyn", k)
+	v.callUnknown(st, call.Signature(), args, false, "dyn", k)
 }
 
 func resultType(sig *types.Signature) types.Type {
@@ -83,6 +85,9 @@ func resultType(sig *types.Signature) types.Type {
 }
 
 func (v *Verifier) callUnknown(st *State, sig *types.Signature, args []Value, havocAll bool, hint string, k func(*State, Value)) {
+	for _, a := range args {
+		v.escapeValue(st, a)
+	}
 	if havocAll {
 		st.havocAll()
 	} else {
@@ -268,6 +273,11 @@ func (v *Verifier) applyContract(st *State, fc *FuncContract, sig *types.Signatu
 		v.oblige(st, "pre", fmt.Sprintf("%s:%s", what, clauseLabel(cl, i)), t, ins.Pos(), cl)
 		st.assumeTagged(t, cl.Label)
 	}
+	if !fc.Pure {
+		for _, a := range args {
+			v.escapeValue(st, a)
+		}
+	}
 	old := st.snapshot()
 	switch {
 	case fc.ModAll:
@@ -277,7 +287,7 @@ func (v *Verifier) applyContract(st *State, fc *FuncContract, sig *types.Signatu
 			v.havocLValue(st, env, m)
 		}
 		st.bumpNext()
-	case !fc.Pure:
+	case !fc.Pure || fc.Fresh:
 		st.bumpNext()
 	}
 	res := st.freshValue("ret_"+what, resultType(sig))
@@ -649,7 +659,7 @@ func typeKey(n *types.Named) string {
 
 func (v *Verifier) lockAcquire(st *State, muExpr ssa.Value, mu Value, ins ssa.Instruction) {
 	key := lockKey(mu)
-	st.held[key] = true
+	st.held[key] = &heldLock{mu.L[0], mu.L[1]}
 	owner, named, field, ok := v.ownerOf(st, muExpr)
 	if !ok {
 		return
@@ -658,20 +668,48 @@ func (v *Verifier) lockAcquire(st *State, muExpr ssa.Value, mu Value, ins ssa.In
 	if tc == nil {
 		return
 	}
+	prev := st.lastRel[key]
+	if prev == nil {
+		prev = st.entry
+	}
 	v.havocGuarded(st, owner, named, tc, field)
 	v.assumeTypeInv(st, owner, named, tc)
+	v.assumeRely(st, owner, tc, prev)
 	st.acq = st.snapshot()
+	if st.clean == nil {
+		st.clean = map[string]bool{}
+	}
+	st.clean[key] = true
 }
 
 func (v *Verifier) lockRelease(st *State, muExpr ssa.Value, mu Value, ins ssa.Instruction) {
 	key := lockKey(mu)
+	if st.held[key] == nil && len(st.held) == 1 {
+		// the same lock reached through a different (but equal) pointer term
+		for k, h := range st.held {
+			v.oblige(st, "lock", "unlock releases the lock that is held", And(Eq(mu.L[0], h.blk), Eq(mu.L[1], h.off)), ins.Pos(), nil)
+			key = k
+		}
+	} else if st.held[key] == nil {
+		v.oblige(st, "lock", "unlock of a lock that is held", st.heldTerm(mu.L[0], mu.L[1]), ins.Pos(), nil)
+	}
 	owner, named, _, ok := v.ownerOf(st, muExpr)
 	if ok {
 		if tc := v.e.ct.Types[typeKey(named)]; tc != nil {
-			v.assertTypeInv(st, owner, named, tc, "unlock", ins.Pos())
+			if st.clean[key] {
+				v.framedInv(st, named, tc, "unlock", ins.Pos())
+			} else {
+				v.assertTypeInv(st, owner, named, tc, "unlock", ins.Pos())
+				v.assertGuarantee(st, owner, named, tc, "unlock", ins.Pos())
+			}
 		}
 	}
-	st.held[key] = false
+	delete(st.clean, key)
+	if st.lastRel == nil {
+		st.lastRel = map[string]*State{}
+	}
+	st.lastRel[key] = st.snapshot()
+	delete(st.held, key)
 }
 
 func (v *Verifier) condWait(st *State, condExpr ssa.Value, cond Value, ins ssa.Instruction) {
@@ -702,8 +740,11 @@ func (v *Verifier) condWait(st *State, condExpr ssa.Value, cond Value, ins ssa.I
 		mu = m
 	}
 	v.assertTypeInv(st, owner, named, tc, "wait", ins.Pos())
+	v.assertGuarantee(st, owner, named, tc, "wait", ins.Pos())
+	prev := st.snapshot()
 	v.havocGuarded(st, owner, named, tc, mu)
 	v.assumeTypeInv(st, owner, named, tc)
+	v.assumeRely(st, owner, tc, prev)
 	st.acq = st.snapshot()
 }
 
@@ -800,8 +841,9 @@ func (v *Verifier) checkGuard(st *State, addrExpr ssa.Value, p token.Pos) {
 						return
 					}
 					muv := Value{L: []*Term{owner.L[0], Add(owner.L[1], IntLit(int64(v.e.lay.FieldOff(stt, i))))}}
-					if !st.held[lockKey(muv)] {
-						v.oblige(st, "lock", fmt.Sprintf("%s.%s accessed with %s held", named.Obj().Name(), fname, mu), TFalse, p, nil)
+					if st.held[lockKey(muv)] == nil {
+						// an object allocated by this invocation is not shared yet
+						v.oblige(st, "lock", fmt.Sprintf("%s.%s accessed with %s held", named.Obj().Name(), fname, mu), Or(Ge(owner.L[0], v.entry.next), st.heldTerm(muv.L[0], muv.L[1])), p, nil)
 					}
 				}
 			}
@@ -859,7 +901,51 @@ func (v *Verifier) loopEnv(st *State) *Env {
 	return env
 }
 
+// rangeIndexFact: go/ssa lowers "for i := range slice" to a counter cell that starts at -1 and is
+// incremented and compared with the length at the loop head; -1 <= counter < max(len,0)... holds there.
+func (v *Verifier) rangeIndexFact(st *State, li *LoopInfo) *Term {
+	h := li.Header
+	if h.Comment != "rangeindex.loop" || len(h.Instrs) < 4 {
+		return nil
+	}
+	ld, ok := h.Instrs[0].(*ssa.UnOp)
+	if !ok {
+		return nil
+	}
+	a, ok := ld.X.(*ssa.Alloc)
+	if !ok || a.Comment != "rangeindex" {
+		return nil
+	}
+	var cmp *ssa.BinOp
+	for _, ins := range h.Instrs {
+		if b, ok := ins.(*ssa.BinOp); ok && b.Op == token.LSS {
+			cmp = b
+		}
+	}
+	if cmp == nil {
+		return nil
+	}
+	fr := st.top()
+	cell, ok := fr.cells[a]
+	if !ok {
+		return nil
+	}
+	lenV, ok := fr.regs[cmp.Y]
+	if !ok {
+		if c, isConst := cmp.Y.(*ssa.Const); isConst {
+			lenV = v.constValue(st, c)
+		} else {
+			return nil
+		}
+	}
+	idx := cell.L[0]
+	return And(Ge(idx, IntLit(-1)), Or(Lt(idx, lenV.L[0]), Eq(idx, IntLit(-1))))
+}
+
 func (v *Verifier) assertLoopInv(st *State, li *LoopInfo, phase string) {
+	if f := v.rangeIndexFact(st, li); f != nil {
+		v.oblige(st, "inv", fmt.Sprintf("loop#%d:range-index@%s", li.Ordinal, phase), f, li.Header.Instrs[0].Pos(), nil)
+	}
 	env := v.loopEnv(st)
 	for i, cl := range v.loopClauses(li) {
 		t := v.evalBoolIn(st, env, cl)
@@ -868,40 +954,116 @@ func (v *Verifier) assertLoopInv(st *State, li *LoopInfo, phase string) {
 }
 
 func (v *Verifier) assumeLoopInv(st *State, li *LoopInfo) {
+	if f := v.rangeIndexFact(st, li); f != nil {
+		st.assume(f)
+	}
 	env := v.loopEnv(st)
 	for _, cl := range v.loopClauses(li) {
 		st.assumeTagged(v.evalBoolIn(st, env, cl), cl.Label)
 	}
 }
 
-func (v *Verifier) loopWritesMemory(li *LoopInfo) bool {
+type loopEffects struct {
+	unknown   bool
+	freeVars  []*ssa.FreeVar
+	allocs    []*ssa.Alloc
+	lockCalls []*ssa.Call // Lock / Wait calls: guarded fields of the owner change
+}
+
+func rootOfAddr(v ssa.Value) ssa.Value {
+	for {
+		switch x := v.(type) {
+		case *ssa.FieldAddr:
+			v = x.X
+		case *ssa.IndexAddr:
+			if _, ok := x.X.Type().Underlying().(*types.Pointer); !ok {
+				return v
+			}
+			v = x.X
+		default:
+			return v
+		}
+	}
+}
+
+func (v *Verifier) loopEffectsOf(li *LoopInfo) *loopEffects {
+	eff := &loopEffects{}
+	seenFV := map[*ssa.FreeVar]bool{}
+	seenA := map[*ssa.Alloc]bool{}
+	fi := v.e.info(v.fn)
 	for b := range li.Blocks {
 		for _, ins := range b.Instrs {
 			switch ins := ins.(type) {
 			case *ssa.Store:
-				if a := rootAlloc(ins.Addr); a == nil || !v.e.info(v.fn).cellable[a] {
-					return true
+				switch r := rootOfAddr(ins.Addr).(type) {
+				case *ssa.Alloc:
+					if !fi.cellable[r] && !seenA[r] {
+						seenA[r] = true
+						eff.allocs = append(eff.allocs, r)
+					}
+				case *ssa.FreeVar:
+					if !seenFV[r] {
+						seenFV[r] = true
+						eff.freeVars = append(eff.freeVars, r)
+					}
+				default:
+					eff.unknown = true
 				}
-			case *ssa.MapUpdate, *ssa.Defer, *ssa.Go, *ssa.Send, *ssa.Select, *ssa.MakeInterface:
-				// MakeInterface allocates boxes but does not write existing memory
-				if _, ok := ins.(*ssa.MakeInterface); ok {
-					continue
+			case *ssa.MapUpdate, *ssa.Defer, *ssa.Go, *ssa.Send:
+				eff.unknown = true
+			case *ssa.Select:
+				for _, s := range ins.States {
+					if s.Dir == types.SendOnly {
+						eff.unknown = true
+					}
 				}
-				return true
 			case *ssa.Call:
+				if fn := ins.Call.StaticCallee(); fn != nil {
+					switch funcKey(fn) {
+					case "sync.(*Mutex).Lock", "sync.(*RWMutex).Lock", "sync.(*RWMutex).RLock", "sync.(*Cond).Wait":
+						eff.lockCalls = append(eff.lockCalls, ins)
+						continue
+					case "sync.(*Mutex).Unlock", "sync.(*RWMutex).Unlock", "sync.(*RWMutex).RUnlock", "sync.(*Cond).Broadcast", "sync.(*Cond).Signal":
+						continue
+					}
+				}
 				if !v.callIsPure(&ins.Call) {
-					return true
+					// a call through a function value modifies only what its arguments reach (see dispatchCall)
+					if !ins.Call.IsInvoke() && ins.Call.StaticCallee() == nil {
+						if _, isBuiltin := ins.Call.Value.(*ssa.Builtin); !isBuiltin {
+							ok := true
+							for _, a := range ins.Call.Args {
+								switch a.Type().Underlying().(type) {
+								case *types.Pointer, *types.Slice, *types.Map, *types.Interface:
+									if al, isAlloc := rootOfAddr(a).(*ssa.Alloc); isAlloc && !fi.cellable[al] {
+										if !seenA[al] {
+											seenA[al] = true
+											eff.allocs = append(eff.allocs, al)
+										}
+									} else {
+										ok = false
+									}
+								}
+							}
+							if ok {
+								continue
+							}
+						}
+					}
+					eff.unknown = true
 				}
 			}
 		}
 	}
-	return false
+	sort.Slice(eff.freeVars, func(i, j int) bool { return eff.freeVars[i].Name() < eff.freeVars[j].Name() })
+	sort.Slice(eff.allocs, func(i, j int) bool { return eff.allocs[i].Pos() < eff.allocs[j].Pos() })
+	return eff
 }
 
 func (v *Verifier) callIsPure(c *ssa.CallCommon) bool {
 	if b, ok := c.Value.(*ssa.Builtin); ok {
 		switch b.Name() {
-		case "len", "cap", "min", "max", "ssa:wrapnilchk":
+		case "len", "cap", "min", "max", "ssa:wrapnilchk", "ssa:deferstack":
 			return true
 		}
 		return false
@@ -915,8 +1077,45 @@ func (v *Verifier) callIsPure(c *ssa.CallCommon) bool {
 		if fc != nil && fc.Pure {
 			return true
 		}
+		if fc != nil && fc.Inline {
+			return v.bodyIsPure(fn, 0)
+		}
 	}
 	return false
+}
+
+// bodyIsPure: an inlined function whose body writes only its own locals.
+func (v *Verifier) bodyIsPure(fn *ssa.Function, depth int) bool {
+	if r, ok := v.e.pureBody[fn]; ok {
+		return r
+	}
+	body := fn
+	if len(body.Blocks) == 0 && fn.Origin() != nil {
+		body = fn.Origin()
+	}
+	if len(body.Blocks) == 0 || depth > 4 {
+		return false
+	}
+	v.e.pureBody[fn] = false // recursion guard
+	pure := true
+	for _, b := range body.Blocks {
+		for _, ins := range b.Instrs {
+			switch ins := ins.(type) {
+			case *ssa.Store:
+				if _, ok := rootOfAddr(ins.Addr).(*ssa.Alloc); !ok {
+					pure = false
+				}
+			case *ssa.MapUpdate, *ssa.Go, *ssa.Defer, *ssa.Send, *ssa.Select:
+				pure = false
+			case *ssa.Call:
+				if !v.callIsPure(&ins.Call) {
+					pure = false
+				}
+			}
+		}
+	}
+	v.e.pureBody[fn] = pure
+	return pure
 }
 
 func (v *Verifier) havocLoop(st *State, li *LoopInfo) {
@@ -931,13 +1130,49 @@ func (v *Verifier) havocLoop(st *State, li *LoopInfo) {
 		}
 		fr.cells[a] = st.freshValue("lp_"+name, derefType(a.Type()))
 	}
-	if v.loopWritesMemory(li) {
+	eff := v.loopEffectsOf(li)
+	// addresses that the loop body lets escape are no longer private from the first iteration on
+	for b := range li.Blocks {
+		for _, ins := range b.Instrs {
+			for _, op := range ins.Operands(nil) {
+				a, ok := (*op).(*ssa.Alloc)
+				if !ok || fr.info.cellable[a] {
+					continue
+				}
+				switch x := ins.(type) {
+				case *ssa.Store:
+					if x.Addr == a && x.Val != a {
+						continue
+					}
+				case *ssa.UnOp:
+					if x.Op == token.MUL {
+						continue
+					}
+				case *ssa.FieldAddr, *ssa.IndexAddr, *ssa.DebugRef:
+					// interior addresses: conservatively treated as escaping below unless only loaded/stored
+				}
+				if p, ok := fr.regs[a]; ok {
+					st.escape(p)
+				}
+			}
+		}
+	}
+	if eff.unknown {
 		st.havocAll()
 	} else {
 		st.bumpNext()
-	}
-	for _, fv := range li.ModFree {
-		_ = fv
+		for _, fv := range eff.freeVars {
+			p := fr.regs[fv]
+			st.storeAt(p.L[0], p.L[1], st.freshValue("lp_"+fv.Name(), derefType(fv.Type())))
+		}
+		for _, a := range eff.allocs {
+			if p, ok := fr.regs[a]; ok && p.cell == nil {
+				st.storeAt(p.L[0], p.L[1], st.freshValue("lp_"+a.Comment, derefType(a.Type())))
+			}
+		}
+		for _, lc := range eff.lockCalls {
+			v.havocForLockCall(st, lc)
+		}
 	}
 	// iterators advanced inside the loop lose their visited set
 	for b := range li.Blocks {
@@ -1011,4 +1246,102 @@ func (v *Verifier) ghostAssign(st *State, env *Env, ga GhostAssign) {
 		return
 	}
 	st.storeAt(loc.blk, loc.off, rhs)
+}
+
+// havocForLockCall: a loop that (re)acquires a lock sees new values of the guarded fields each iteration.
+func (v *Verifier) havocForLockCall(st *State, c *ssa.Call) {
+	arg := c.Call.Args[0]
+	var fa *ssa.FieldAddr
+	switch a := arg.(type) {
+	case *ssa.FieldAddr:
+		fa = a
+	case *ssa.UnOp: // cond: load of X.c
+		if f, ok := a.X.(*ssa.FieldAddr); ok {
+			fa = f
+		}
+	}
+	if fa == nil {
+		st.havocAll()
+		return
+	}
+	named, ok := derefType(fa.X.Type()).(*types.Named)
+	if !ok {
+		st.havocAll()
+		return
+	}
+	tc := v.e.ct.Types[typeKey(named)]
+	if tc == nil {
+		return
+	}
+	ownerExpr := fa.X
+	owner, ok := v.tryEval(st, ownerExpr)
+	if !ok || owner.cell != nil {
+		st.havocAll()
+		return
+	}
+	for mu := range tc.GuardedBy {
+		v.havocGuarded(st, owner, named, tc, mu)
+	}
+}
+
+// tryEval evaluates simple address expressions (free variables, parameters, loads of those) without side effects.
+func (v *Verifier) tryEval(st *State, x ssa.Value) (Value, bool) {
+	fr := st.top()
+	if val, ok := fr.regs[x]; ok {
+		return val, true
+	}
+	switch x := x.(type) {
+	case *ssa.UnOp:
+		if x.Op == token.MUL {
+			p, ok := v.tryEval(st, x.X)
+			if !ok {
+				return Value{}, false
+			}
+			if p.cell != nil {
+				c := v.cellFrame(st, p.cell.alloc).cells[p.cell.alloc]
+				n := v.e.lay.Size(x.Type())
+				return Value{T: x.Type(), L: c.L[p.cell.off : p.cell.off+n]}, true
+			}
+			return st.loadAtRaw(p.L[0], p.L[1], x.Type()), true
+		}
+	case *ssa.Global, *ssa.Const, *ssa.Function:
+		return v.eval(st, x), true
+	}
+	return Value{}, false
+}
+
+// assumeRely: what other threads may have done to the guarded state since prev.
+func (v *Verifier) assumeRely(st *State, owner Value, tc *TypeContract, prev *State) {
+	if prev == nil {
+		return
+	}
+	env := &Env{v: v, vars: map[string]Value{"self": owner}, pkgPath: tc.PkgPath, old: prev}
+	for _, cl := range tc.Rely {
+		st.assumeTagged(v.evalBoolIn(st, env, cl), cl.Label)
+	}
+}
+
+// assertGuarantee: this thread's own critical section respects the rely of the others.
+func (v *Verifier) assertGuarantee(st *State, owner Value, named *types.Named, tc *TypeContract, when string, p token.Pos) {
+	if st.acq == nil {
+		return
+	}
+	env := &Env{v: v, vars: map[string]Value{"self": owner}, pkgPath: tc.PkgPath, old: st.acq}
+	for i, cl := range tc.Rely {
+		t := v.evalBoolIn(st, env, cl)
+		v.oblige(st, "inv", fmt.Sprintf("%s:guarantee-%s@%s", named.Obj().Name(), clauseLabel(cl, i), when), t, p, cl)
+	}
+}
+
+// framedInv: the critical section wrote nothing that the owner's invariant or rely can read
+// (only blocks allocated by this invocation); the clauses hold by framing.
+func (v *Verifier) framedInv(st *State, named *types.Named, tc *TypeContract, when string, p token.Pos) {
+	for i, cl := range tc.Invariant {
+		name := fmt.Sprintf("%s#inv[%s:%s@%s]", v.key, named.Obj().Name(), clauseLabel(cl, i), when)
+		ob := &Obligation{Name: name, Kind: "inv", Func: v.key, Pos: v.pos(p), Goal: TTrue, Clause: cl, Static: true, StaticOK: true, Note: "by framing (read-only critical section)", Path: append([]int(nil), st.path...)}
+		if v.fc != nil {
+			ob.Props = v.fc.Props
+		}
+		v.obs = append(v.obs, ob)
+	}
 }
